@@ -284,6 +284,8 @@ def strategy(focus="membership"):
             if draw(st.integers(0, 5)) == 0:
                 spec["topics"] = "t.*"
             spec["loop_poll"] = draw(st.sampled_from(["getmany", "getmany", "getone"]))
+            if draw(st.integers(0, 3)) == 0:
+                spec["listener_style"] = "delegating"
             for _ in range(draw(st.integers(0, 8))):
                 r = draw(st.integers(0, 9))
                 if r <= 4:
